@@ -355,6 +355,7 @@ func (fs faultsim) Run(c *Case, dir string) *Outcome {
 		}
 	}
 	for _, pl := range plans {
+		Tick()
 		plan := pl
 		viol, _, fired, herr := fs.runFaulted(c, dir, ex.Target, &plan, out)
 		if herr != "" {
